@@ -288,4 +288,7 @@ MUTATIONS += [
     dict(id="r3d-evidence-key", patch="seeded/C06a/patch.diff", expect={"C06": ["R3d:"], "C02": ["R3d:"]}),
     dict(id="q-hmm-enumerate-ordering", file="cirkit/templates/pgms.py", old="    input_sl = input_factories[ordering[-1]](Scope([ordering[-1]]), num_latent_states)", new="    last_var = ordering[-1]\n    input_sl = input_factories[last_var](Scope([last_var]), num_latent_states)", expect={}, quiet=True),
     dict(id="q-mask-enumerate-alias", file="cirkit/backend/torch/queries.py", old="        num_idxs = sum(len(s) for s in batch_integrate_vars)", new="        num_idxs = sum(map(len, batch_integrate_vars))", expect={}, quiet=True),
+    # ---- behaviour-preserving twins of seeded changes: must stay silent
+    dict(id="q-index-range-lossless", edits=[(TNODES, "        self._indices: Tensor\n        self.register_buffer(\"_indices\", torch.tensor(indices))", "        self._indices: Tensor\n        self.register_buffer(\"_indices\", torch.tensor(indices))\n        self._range: tuple[int, int] | None = None\n        if list(indices) == list(range(indices[0], indices[0] + len(indices))):\n            self._range = (indices[0], len(indices))"), (TNODES, "        return torch.index_select(x, self.dim + 1, self._indices)", "        if self._range is not None:\n            return torch.narrow(x, self.dim + 1, self._range[0], self._range[1])\n        return torch.index_select(x, self.dim + 1, self._indices)")], expect={}, quiet=True),
+    dict(id="q-evidence-index-helper-cache", file=TINPUT, old="        obs = self.observation()  # (F, D)\n        obs = obs.unsqueeze(dim=1)  # (F, 1, D)", new="        self._last_batch_size = batch_size\n        obs = self.observation()  # (F, D)\n        obs = obs.unsqueeze(dim=1)  # (F, 1, D)", expect={}, quiet=True),
 ]
